@@ -7,7 +7,8 @@ A  Props/C23.v: over a line-by-line model of SortImports/sortSpecs/collapse, for
    result does not depend on the sort's tie order unless key-equal specs differ in "has a comment".
 B  K-diff: parser.ParseFile -> the spec records -> extracted model (stable insertion sort) vs
    d.Specs after the real ast.SortImports (name, path, comment, reassigned Pos/End), and the groups
-   of the re-parsed format.Source output vs the model's sorted runs.
+   of the re-parsed format.Source output vs the model's sorted runs (same specs in the same order,
+   every run boundary of the model is a group boundary of the output; the printer may split further).
 C  direct oracle (harness): on the AST after SortImports and on the re-parsed format.Source output:
    no (name,path) added, none removed except duplicates, every successive-line group sorted by path;
    no panic; parsable input formats, formatted output parses.
@@ -120,7 +121,7 @@ def gen_file(rng):
     return s
 
 
-EDIT = list("()\"`;\n/*# \tax._") + ["import", "\r\n", "/*", "*/", "//", "(\n", ")\n", "\n\n"]
+EDIT = list("()\"`\n/*# \tax._") + ["import", "\r\n", "/*", "*/", "//", "(\n", ")\n", "\n\n"]
 
 
 def mutate(rng, s):
@@ -175,6 +176,35 @@ def coarse(rec, after):
     return "|".join(out)
 
 
+def refine(impl, model):
+    """The printer may split a run further (a comment that ends up on its own line is a line gap), which keeps
+    every group sorted; what must not happen is two runs glued.  Returns the impl groups with only those
+    boundaries kept that the model has too, and whether extra boundaries were dropped."""
+    a, b = impl.split("|"), model.split("|")
+    if len(a) != len(b):
+        return impl, False
+    out, extra = [], False
+    for x, y in zip(a, b):
+        if ":" not in x or ":" not in y or x[:3] != y[:3] or x.replace("/", ";") != y.replace("/", ";"):
+            out.append(x)
+            continue
+        xs, ys = x[3:], y[3:]
+        # same specs in the same order: walk both strings, keep '/' of impl only where model has '/'
+        res, i, j = [], 0, 0
+        while i < len(xs) and j < len(ys):
+            if xs[i] == ys[j]:
+                res.append(xs[i])
+            elif xs[i] == "/" and ys[j] == ";":
+                res.append(";")
+                extra = True
+            else:           # impl ';' where model has '/': glued
+                res.append(xs[i])
+            i += 1
+            j += 1
+        out.append(x[:3] + "".join(res))
+    return "|".join(out), extra
+
+
 def run(ctx):
     ctx.prove("C23")
     model = ctx.model("c23")
@@ -209,7 +239,10 @@ def run(ctx):
         elif k < 6:
             add(gen_block(rng) + rng.choice(REST), "block")
         else:
-            add(mutate(rng, gen_file(rng)), "file-mutated")
+            b = mutate(rng, gen_file(rng))
+            if b";" in b:       # two specs on one line: deterministic sameline-set only
+                continue
+            add(b, "file-mutated")
 
     inp = "\n".join(enc(b) for b in cases) + "\n"
     rc, out = ctx.run([impl], input=inp, timeout=900)
@@ -237,6 +270,10 @@ def run(ctx):
         keys.append(enc(cases[i]))
         mixed = g[2] == "1"
         n_mixed += mixed
+        if origin[cases[i]] == "sameline-set" and f[2] == "PANIC":
+            # known finding (3): MergeLine panics, there is no result to compare
+            ia.append("(impl panicked)"); ma.append("(impl panicked)"); ig.append("(not compared)"); mg.append("(not compared)")
+            continue
         if mixed:      # tie order matters for which duplicate survives: compare the tie-insensitive projection
             ia.append(coarse(f[2], True))
             ma.append(coarse(g[0], True))
@@ -253,6 +290,10 @@ def run(ctx):
             a, b = ig[j].split("|"), mg[j].split("|")
             if len(a) == len(b):
                 ig[j] = "|".join(x if y != "?" else "?" for x, y in zip(a, b))
+    n_split = 0
+    for j in range(len(ig)):
+        ig[j], extra = refine(ig[j], mg[j])
+        n_split += extra
     ctx.diff_lines("sort_imports~ast.SortImports", keys, "\n".join(ia), "\n".join(ma))
     ctx.diff_lines("sorted-runs~groups-of-format.Source-output", keys, "\n".join(ig), "\n".join(mg))
     # C: direct oracle
@@ -290,7 +331,8 @@ def run(ctx):
                    "tie-insensitive projection (sequence of distinct (name,path)). non-trivial = distinct parsable file with >=2 specs in "
                    "blocks whose spec order/positions SortImports changed" % (len(FINDING_SET), len(FIXED_SET), N, len(SMALL), n_ex, len(SAMELINE_SET), n_mixed),
               origin_histogram=orig_h, status_histogram=status_h,
-              shape_histogram=dict(sorted(shapes.items(), key=lambda kv: -kv[1])[:40]), model_compared=len(sel))
+              shape_histogram=dict(sorted(shapes.items(), key=lambda kv: -kv[1])[:40]), model_compared=len(sel),
+              output_splits_a_run_further=n_split)
     ctx.assume("sort.Slice returns a permutation of its argument sorted for the less closure (any such function: parameter of the theorems); "
                "the executable model uses a stable insertion sort and the differential run compares tie-insensitive observables",
                "token.File.MergeLine only renumbers the lines after the merged one (line numbers are inputs of the model)",
